@@ -45,49 +45,100 @@ def _mk_mul(fs):
 
 
 def split_linear(e, k):
-    """-> list of (coef, core); e == sum coef*core, coef free of k; core None means the constant 1"""
+    """-> list of (coef, core); e == sum coef*core, coef free of k; core None means the constant 1.
+    The body is expanded into monomials (products distributed over sums, index-free factors pulled into
+    the coefficient) so that code and specification reach the same additive normal form."""
     e = to_real(e) if z3.is_int(e) else e
+    monos = _expand(e, k, [0])
+    if monos is None:
+        monos = [(z3.RealVal(1), [e])] if contains(e, k) else [(e, [])]
+    out = []
+    for cf, deps in monos:
+        if not deps:
+            out.append((cf, None))
+        else:
+            deps = sorted(deps, key=lambda d: d.get_id())
+            out.append((cf, _mk_mul([to_real(d) for d in deps])))
+    return out
+
+
+LIMIT = 96
+
+
+def _expand(e, k, budget):
+    """-> list of (coef, [dependent factors]) or None when the expansion would be too large"""
     if not contains(e, k):
-        return [(e, None)]
+        return [(to_real(e), [])]
     if z3.is_app(e):
         kind = e.decl().kind()
         ch = e.children()
         if kind == z3.Z3_OP_ADD:
             out = []
             for c in ch:
-                out.extend(split_linear(c, k))
-            return out
+                r = _expand(c, k, budget)
+                if r is None:
+                    return None
+                out.extend(r)
+            return out if len(out) <= LIMIT else None
         if kind == z3.Z3_OP_SUB:
-            out = list(split_linear(ch[0], k))
+            out = _expand(ch[0], k, budget)
+            if out is None:
+                return None
+            out = list(out)
             for c in ch[1:]:
-                out.extend((-cf, co) for cf, co in split_linear(c, k))
-            return out
+                r = _expand(c, k, budget)
+                if r is None:
+                    return None
+                out.extend((-cf, d) for cf, d in r)
+            return out if len(out) <= LIMIT else None
         if kind == z3.Z3_OP_UMINUS:
-            return [(-cf, co) for cf, co in split_linear(ch[0], k)]
+            r = _expand(ch[0], k, budget)
+            return None if r is None else [(-cf, d) for cf, d in r]
         if kind == z3.Z3_OP_MUL:
-            free = [c for c in ch if not contains(c, k)]
-            dep = [c for c in ch if contains(c, k)]
-            cf = _mk_mul([to_real(f) for f in free]) if free else z3.RealVal(1)
-            if len(dep) == 1:
-                return [(cf * c2, co) for c2, co in split_linear(dep[0], k)]
-            return [(cf, _mk_mul([to_real(d) for d in dep]))]
+            acc = [(z3.RealVal(1), [])]
+            for c in ch:
+                r = _expand(c, k, budget)
+                if r is None:
+                    return None
+                acc = [(a_cf * r_cf, a_d + r_d) for a_cf, a_d in acc for r_cf, r_d in r]
+                if len(acc) > LIMIT:
+                    return None
+            return acc
         if kind == z3.Z3_OP_DIV:
             num, den = ch
+            r = _expand(num, k, budget)
+            if r is None:
+                return None
             if not contains(den, k):
-                return [(cf / to_real(den), co) for cf, co in split_linear(num, k)]
-            if not contains(num, k):
-                return [(to_real(num), 1 / to_real(den))]
-            return [(z3.RealVal(1), e)]
+                return [(cf / to_real(den), d) for cf, d in r]
+            inv = 1 / to_real(den)
+            return [(cf, d + [inv]) for cf, d in r]
         if kind == z3.Z3_OP_TO_REAL:
             inner = ch[0]
-            if z3.is_app(inner) and inner.decl().kind() in (z3.Z3_OP_ADD, z3.Z3_OP_SUB, z3.Z3_OP_UMINUS):
-                return split_linear(_push_toreal(inner), k)
-    return [(z3.RealVal(1), e)]
+            if _is_additive(inner) or (z3.is_app(inner) and inner.decl().kind() == z3.Z3_OP_MUL):
+                return _expand(_push_toreal(inner), k, budget)
+    return [(z3.RealVal(1), [e])]
+
+
+def _is_additive(e):
+    if not z3.is_app(e):
+        return False
+    kd = e.decl().kind()
+    if kd in (z3.Z3_OP_ADD, z3.Z3_OP_SUB, z3.Z3_OP_UMINUS):
+        return True
+    if kd == z3.Z3_OP_TO_REAL:
+        return _is_additive(e.arg(0))
+    return False
 
 
 def _push_toreal(e):
     kind = e.decl().kind()
     ch = [z3.ToReal(c) for c in e.children()]
+    if kind == z3.Z3_OP_MUL:
+        r = ch[0]
+        for c in ch[1:]:
+            r = r * c
+        return r
     if kind == z3.Z3_OP_ADD:
         return z3.Sum(ch)
     if kind == z3.Z3_OP_SUB:
@@ -98,9 +149,9 @@ def _push_toreal(e):
     return -ch[0]
 
 
-def _prove_eq(c, a, b, guard):
+def _prove_eq(c, a, b, guard, timeout=3000):
     s = z3.Solver()
-    s.set("timeout", 3000)
+    s.set("timeout", timeout)
     for h in c.hypotheses():
         s.add(h)
     for g in guard:
@@ -123,15 +174,21 @@ def sigma(n, body_fn, lo=0):
             tot = tot + body_fn(i)
         return tot
     c = ctx()
+    # an extent that is provably lo+1 on this path (e.g. after numpy squeezed a length-1 axis)
+    if c.pc and _prove_eq(c, z(n), z(lo) + 1, []):
+        return body_fn(lo)
     depth = len(c.bound_stack)
     k = bound_var(depth)
     c.bound_stack.append(k)
+    c.bound_guards.append([k >= z(lo), k < z(n)])
     c.add_index_term(k)
-    c.mark_nonneg(k)
+    if c.is_nonneg(z(lo)):
+        c.mark_nonneg(k)
     try:
         body = body_fn(Sym(k))
     finally:
         c.bound_stack.pop()
+        c.bound_guards.pop()
     body = unwrap(body)
     if not z3.is_expr(body):
         body = z(body)
